@@ -271,3 +271,63 @@ Example toy_wallet_ok :
                 subaddress toy w' 7 (2 ^ 32 - 1) = subaddress toy w 7 (2 ^ 32 - 1)).
 Proof. exact Lemmas.MoneroBackend.toy_wallet_ok_proof. Qed.
 Print Assumptions toy_wallet_ok.
+
+(* ===== linked to the concrete codec models ===== *)
+(* The tree holds two independent models of Monero block Base58: Model/XmrB58.v (used by the address model
+   above, constants from Gen/ConstsCardmon.v) and Model/Base58Xmr.v (the C10/C11 codec, constants from
+   Gen/Consts.v, with the acceptance / canonicity theorems [xmr_b58_accepts_iff], [xmr_encode_decode]).
+   They are proved to be ONE function: equal on every input (Lemmas/LinkXmr.v: [encode_eq], [decode_eq] for any
+   table long enough, then on the regenerated constants, which the two generators are shown to read
+   identically).  So the C10/C11 theorems hold of the codec the address decoder really calls, and the
+   address decoder inherits them.  No hypothesis: these statements involve no oracle law at all. *)
+From BU Require Model.Codecs Model.XmrB58 Model.Base58Xmr.
+From BU Require Lemmas.XmrConstsOk Lemmas.LinkXmr.
+
+Theorem xmr_b58_models_agree :
+  (forall b, Codecs.xmr_encode b = Ok (b58x_encode b)) /\ (forall s, b58x_decode s = Codecs.xmr_decode s).
+Proof. exact (conj LinkXmr.b58x_encode_eq LinkXmr.b58x_decode_eq). Qed.
+Print Assumptions xmr_b58_models_agree.
+
+(* the same for ANY alphabet / radix / block table with at least dec_max entries, not only the generated one *)
+Theorem xmr_b58_models_agree_generic : forall alph radix dec_max enc_max enc_lens,
+  (0 < dec_max)%nat -> (0 < enc_max)%nat -> (dec_max <= length enc_lens)%nat ->
+  (forall b, Base58Xmr.encode alph radix dec_max enc_max enc_lens b = Ok (XmrB58.encode alph radix dec_max enc_max enc_lens b)) /\
+  (forall s, XmrB58.decode alph radix dec_max enc_max enc_lens s = Base58Xmr.decode alph radix dec_max enc_max enc_lens s).
+Proof.
+  intros alph radix dec_max enc_max enc_lens H1 H2 H3.
+  exact (conj (LinkXmr.encode_eq alph radix dec_max enc_max enc_lens H1 H2 H3)
+              (LinkXmr.decode_eq alph radix dec_max enc_max enc_lens H1 H2 H3)).
+Qed.
+Print Assumptions xmr_b58_models_agree_generic.
+
+(* [xmr_b58_accepts_iff] (C10) for the address model's codec: accepted strings = encodings of byte strings *)
+Theorem xmr_b58_accepts_iff_linked : forall s,
+  (exists b, b58x_decode s = Ok b) <-> (exists b, bytes_ok b /\ b58x_encode b = s).
+Proof. exact LinkXmr.b58x_accepts_iff. Qed.
+Print Assumptions xmr_b58_accepts_iff_linked.
+
+(* canonicity: re-encoding what was decoded gives the string back *)
+Theorem xmr_b58_enc_dec_linked : forall s b, b58x_decode s = Ok b -> b58x_encode b = s /\ bytes_ok b.
+Proof. exact LinkXmr.b58x_encode_decode. Qed.
+Print Assumptions xmr_b58_enc_dec_linked.
+
+(* the fuel artefact of Model/XmrB58.v is unreachable: the codec of the address model refuses with ValueError only *)
+Theorem xmr_b58_decode_errors_linked : forall s e, b58x_decode s = Err e -> e = ValueError.
+Proof. exact LinkXmr.b58x_decode_err. Qed.
+Print Assumptions xmr_b58_decode_errors_linked.
+
+(* the address decoder: an accepted address string is THE canonical block-Base58 spelling of a byte string (an
+   address has no second spelling), and acceptance is a property of the decoded bytes.  Stated through the
+   decoder's first step only, so that it is independent of the checks performed on the bytes afterwards (the exact
+   condition on the bytes, and ValueError as the only refusal of the whole decoder, are proved in
+   Lemmas/LinkXmrAddr.v against the present body of Model/AddrXmr.v, which is under revision) *)
+Theorem address_accepted_is_canonical : forall o addr net payid r, decode_addr o addr net payid = Ok r ->
+  exists dec, bytes_ok dec /\ b58x_decode addr = Ok dec /\ b58x_encode dec = addr.
+Proof. intros o. exact (LinkXmr.decode_addr_canonical (keccak o) (G o) (pdec o)). Qed.
+Print Assumptions address_accepted_is_canonical.
+
+Theorem address_decoder_accepts_iff_canonical : forall o addr net payid r,
+  decode_addr o addr net payid = Ok r <->
+  exists dec, bytes_ok dec /\ b58x_encode dec = addr /\ decode_addr o (b58x_encode dec) net payid = Ok r.
+Proof. intros o. exact (LinkXmr.decode_addr_accepts_iff_canonical (keccak o) (G o) (pdec o)). Qed.
+Print Assumptions address_decoder_accepts_iff_canonical.
